@@ -163,6 +163,14 @@ def cfg_tokens(L):
     return c
 
 
+def _fits_float(x):
+    try:
+        float(x)
+        return True
+    except OverflowError:
+        return False
+
+
 class ImplError(Exception):
     pass
 
@@ -286,6 +294,20 @@ class ImplRunner:
             return orig_put(item, *a, **k)
 
         L.rx_queue.put = put
+        if op.get('watch_tx'):
+            # judge-side observation (never compared with the model): does a transmit pass BEGIN with the sender waiting for a
+            # Flow Control?  Makes "since it last waited" (C04) observable without any source hook.
+            try:
+                orig_ptx = L._process_tx
+                wait_state = type(L).TxState.WAIT_FC
+
+                def watched_ptx(*a, **k):
+                    if L.tx_state == wait_state:
+                        runner.ev(i, 'txw')
+                    return orig_ptx(*a, **k)
+                L._process_tx = watched_ptx
+            except AttributeError:
+                pass
         self.layers[i] = L
         c = cfg_tokens(L)
         self.plain(' '.join(toks + c), 'ok')
@@ -441,9 +463,14 @@ class ImplRunner:
         P = isotp.TransportLayerLogic.Params()
         br = raw.get('rate_limit_max_bitrate', P.rate_limit_max_bitrate)
         w = raw.get('rate_limit_window_size', P.rate_limit_window_size)
+        # Python evaluates the float conversions; the model is parametric in their results (DESIGN 3.1).  An integer too large to be
+        # converted to a float is handed over as +inf (that is what "not finite" means for it).
+        if isinstance(w, int) and not isinstance(w, bool) and not _fits_float(w):
+            toks = [t if not t.startswith('rate_limit_window_size=') else 'rate_limit_window_size=finf' for t in toks]
         if isinstance(br, int) and isinstance(w, (int, float)):
             try:
-                toks.append('prod=%s' % pv(br * w))
+                x = br * w
+                toks.append('prod=%s' % (pv(x) if _fits_float(x) else 'finf'))
             except OverflowError:
                 toks.append('prod=finf')
         ov = raw.get('override_receiver_stmin')
